@@ -74,6 +74,8 @@ pub struct TlsSession {
     /// first byte the client sent on this (possibly tunnelled) stream
     pub first_byte: Option<u8>,
     pub plaintext_in: usize,
+    /// (delivery time, plaintext bytes) of everything the inner peer sent
+    pub plaintext_out: Vec<(u64, usize)>,
 }
 
 pub struct TlsPeer {
@@ -86,7 +88,9 @@ pub struct TlsPeer {
 
 impl TlsPeer {
     pub fn new(cert: &str, inner: Box<dyn Peer>, log: Arc<Mutex<TlsLog>>, conn: usize) -> TlsPeer {
-        let tls = ServerConnection::new(server_config(cert)).expect("server connection");
+        let mut tls = ServerConnection::new(server_config(cert)).expect("server connection");
+        // a scripted peer hands over whole segments (any size) and flushes them at once
+        tls.set_buffer_limit(None);
         let idx = {
             let mut l = log.lock().unwrap();
             l.sessions.push(TlsSession { conn, ..Default::default() });
@@ -112,6 +116,8 @@ fn flush(tls: &mut ServerConnection, outer: &mut dyn Ctl, delay: u64) {
 struct TlsCtl<'a> {
     outer: &'a mut dyn Ctl,
     tls: &'a mut ServerConnection,
+    log: &'a Arc<Mutex<TlsLog>>,
+    idx: usize,
 }
 
 impl Ctl for TlsCtl<'_> {
@@ -125,6 +131,8 @@ impl Ctl for TlsCtl<'_> {
         // records are encrypted in call order; scripts schedule with non-decreasing delays, so
         // delivery order equals record order
         let _ = self.tls.writer().write_all(&data);
+        let t = self.outer.now().saturating_add(delay_ns);
+        self.log.lock().unwrap().sessions[self.idx].plaintext_out.push((t, data.len()));
         flush(self.tls, self.outer, delay_ns);
     }
     fn fin_at(&mut self, delay_ns: u64) {
@@ -161,7 +169,7 @@ impl Ctl for TlsCtl<'_> {
 impl Peer for TlsPeer {
     fn on_accept(&mut self, c: &mut dyn Ctl) {
         c.set_opaque();
-        let mut ctl = TlsCtl { outer: c, tls: &mut self.tls };
+        let mut ctl = TlsCtl { outer: c, tls: &mut self.tls, log: &self.log, idx: self.idx };
         self.inner.on_accept(&mut ctl);
     }
     fn on_bytes(&mut self, c: &mut dyn Ctl, data: &[u8]) {
@@ -213,16 +221,16 @@ impl Peer for TlsPeer {
         }
         flush(&mut self.tls, c, 0);
         if !plain.is_empty() {
-            let mut ctl = TlsCtl { outer: c, tls: &mut self.tls };
+            let mut ctl = TlsCtl { outer: c, tls: &mut self.tls, log: &self.log, idx: self.idx };
             self.inner.on_bytes(&mut ctl, &plain);
         }
     }
     fn on_client_eof(&mut self, c: &mut dyn Ctl) {
-        let mut ctl = TlsCtl { outer: c, tls: &mut self.tls };
+        let mut ctl = TlsCtl { outer: c, tls: &mut self.tls, log: &self.log, idx: self.idx };
         self.inner.on_client_eof(&mut ctl);
     }
     fn on_timer(&mut self, c: &mut dyn Ctl, token: u64) {
-        let mut ctl = TlsCtl { outer: c, tls: &mut self.tls };
+        let mut ctl = TlsCtl { outer: c, tls: &mut self.tls, log: &self.log, idx: self.idx };
         self.inner.on_timer(&mut ctl, token);
     }
     fn as_any(&mut self) -> &mut dyn Any {
